@@ -22,7 +22,8 @@ def _div(a, b):
     if a == 0:
         return 0.0
     if b == 0:
-        return math.copysign(math.inf, a) if not math.isnan(a) else math.nan
+        # IEEE: the sign of the infinity is the product of the signs, and a zero denominator may be negative (False * negative = -0.0)
+        return math.copysign(math.inf, math.copysign(1.0, a) * math.copysign(1.0, b)) if not math.isnan(a) else math.nan
     return a / b
 
 
